@@ -94,6 +94,15 @@ def variant_constructors(ctx):
             return ("<formatted %s>" % (args[0],),)
         return None
 
+    _inner_call = call
+
+    def call(node, recv, args, it, env):        # noqa: F811
+        # a time handed to a constructor is kept as it is: any chrono method that alters it yields another value
+        if isinstance(recv, str) and recv.startswith("<dt") and node.get("m") in ("round_subsecs", "trunc_subsecs", "with_nanosecond", "with_second", "with_minute",
+                                                                                     "with_hour", "duration_round", "duration_trunc", "checked_add_signed", "checked_sub_signed"):
+            return ("<dt altered by %s>" % node.get("m"),)
+        return _inner_call(node, recv, args, it, env)
+
     def build(fn, value):
         name = "function::Variant::" + fn
         h = ctx.anchor_hir(name)
@@ -410,6 +419,39 @@ def lexer_classes(ctx):
     checks = {
         "after_operator": lambda xs: len(xs) == 1 and "Lexem::Operator" in " ".join(render_pat(p) for y in walk(xs[0]["r"]) if y["k"] == "Match" for a in y["arms"] for p in pat_alts(a["pat"])),
     }
+    # a quoted literal ends at the quote character that opened it and nowhere else: the dispatch on the lexing mode is evaluated for
+    # the three quoted modes x the three quote characters and an ordinary one
+    qm = None
+    for x in walk_exprs(nh):
+        if x["k"] == "Match" and x.get("src") == "Normal" and any("SingleQuotedString" in render_pat(a["pat"]) for a in x["arms"]) and \
+                any(y["k"] == "Break" for y in walk_exprs(x)):
+            qm = x
+    okq, whyq = qm is not None, "the dispatch on the quoted lexing modes was not found"
+    if okq:
+        cq = next((y.get("name") for y in walk_exprs(qm) if y["k"] == "Path" and y.get("rk") == "Local" and str(y.get("ty", "")) in ("char", "&char")), "c")
+        mvar = peel(qm["scrut"]).get("name", "mode")
+        for mode_, own in (("SingleQuotedString", "'"), ("DoubleQuotedString", '"'), ("BackticksQuotedString", "`")):
+            for ch in ("'", '"', "`", "x", " "):
+                selfv = {"before_from": True, "after_where": False, "after_open": False, "after_operator": False, "possible_search_root": False,
+                         "char_index": 0, "input_index": 0, "input": ["ab"]}
+                closed = False
+                envq = {"self": selfv, cq: ch, "s": "ab", mvar: interp.V("LexingMode::" + mode_)}
+                try:
+                    try:
+                        interp.eval_in(nh, qm, envq, prog=ctx.prog)
+                    except interp._Break:
+                        closed = True
+                except interp.Undecided as e:
+                    okq, whyq = False, "cannot evaluate the quoted mode %s on `%s`: %s" % (mode_, ch, e)
+                    break
+                if closed != (ch == own):
+                    okq, whyq = False, "in a literal opened with %s the character %s %s the literal" % (own, ch, "ends" if closed else "does not end")
+                    break
+            if not okq:
+                break
+    ctx.obligation(okq)
+    if not okq:
+        ctx.violation("lexer/quotes", ctx.where("lexer::Lexer::next_lexem"), "a quoted literal must end exactly at the quote character that opened it (the other two are ordinary characters inside it): %s" % whyq)
     # after_open = "the lexem just started is an opening bracket", of either style: the block holding the assignment (the
     # dispatch on the first character of a lexem followed by the flag update) is evaluated for every first character
     ao = asg.get("after_open", [])
